@@ -272,10 +272,19 @@ def make_hook(local_root, trace_fd, crash_at, mid, partial_of):
                     os.write(fd, data)
                     os.close(fd)
             os.write(trace_fd, (json.dumps(["CRASH", state["n"], list(rec)]) + "\n").encode())
+            _dump_cov()
             os._exit(137)
         os.write(trace_fd, (json.dumps(list(rec)) + "\n").encode())
 
     return hook
+
+
+def _dump_cov():
+    try:
+        from kdv.common import dump_child_coverage
+        dump_child_coverage()
+    except BaseException:  # noqa
+        pass
 
 
 def run_attempt(case, g, loc, rel, dst, crash_at=None, mid=False, timeout=60):
@@ -312,6 +321,7 @@ def run_attempt(case, g, loc, rel, dst, crash_at=None, mid=False, timeout=60):
             except BaseException as e:  # noqa
                 os.write(w_fd, json.dumps({"status": "raised", "exc": f"{type(e).__name__}: {e}"[:300]}).encode())
         finally:
+            _dump_cov()
             os._exit(code)
     os.close(w_fd)
     os.close(fd_tr)
@@ -755,6 +765,9 @@ def _child_env():
     env["PYTHONHASHSEED"] = "0"
     env["KDV_STUB_KAPPADATA"] = "1"
     env["KDV_REPO"] = str(REPO)
+    from kdv import common as _c
+    if _c._COV.get("dir"):
+        env["KDV_COV_DIR"] = _c._COV["dir"]
     return env
 
 
@@ -768,8 +781,24 @@ def _stub_packages():
         sys.modules[n] = pkg
 
 
+def _start_worker_coverage():
+    """statement coverage of the copy code inside the pool workers (their forked children hand their lines back, see _dump_cov)"""
+    d = os.environ.get("KDV_COV_DIR")
+    if not d:
+        return
+    try:
+        import coverage as _coverage
+        from kdv import common as _c
+        cov = _coverage.Coverage(include=[str(REPO / "kappadata" / "copying" / "*.py")], branch=True, data_file=None)
+        cov.start()
+        _c._COV["cov"], _c._COV["dir"] = cov, d
+    except Exception:
+        pass
+
+
 def worker_main():
     _stub_packages()
+    _start_worker_coverage()
     for line in sys.stdin:
         line = line.strip()
         if not line:
@@ -1085,6 +1114,8 @@ class C20(PropertyCheck):
     def _judge(self, res, cases, obss):
         reqs, exps, own = [], [], []
         for ci, (c, o) in enumerate(zip(cases, obss)):
+            if c.get("_oracle_only"):
+                continue        # scale cases: thousands of operations; judged by the oracle on the real result, not replayed in the model
             rq, ex = requests_for(c, o)
             reqs += rq
             exps += ex
@@ -1229,6 +1260,16 @@ class C20(PropertyCheck):
                 if fn == "imagefolder" and n >= 3:
                     files.append("k0/second.bin")
                 cases.append({"fn": fn, "fmt": "zips", "files": files, "rel": "train", "zbatch": 1, "workers": w, "crashes": []})
+        # scale: sources with far more entries than any small-scope case (a listing / batching limit inside the code shows only here)
+        big = 1100 if quick else 5200
+        cases.append({"fn": "folder", "fmt": "zips", "files": [f"m{i}.bin" for i in range(big)], "rel": "train", "zbatch": 1, "workers": 0,
+                      "crashes": [], "_oracle_only": True})
+        cases.append({"fn": "imagefolder", "fmt": "zips", "files": [f"k{i}/img.bin" for i in range(big)], "rel": "train", "zbatch": 1,
+                      "workers": 2, "crashes": [], "_oracle_only": True})
+        cases.append({"fn": "folder", "fmt": "raw", "files": [f"d{i % 7}/m{i}.bin" for i in range(big)], "rel": "train", "workers": 0, "crashes": [],
+                      "_oracle_only": True})
+        cases.append({"fn": "folder", "fmt": "zip", "files": [f"d{i % 7}/m{i}.bin" for i in range(big)], "rel": "train", "workers": 0, "crashes": [],
+                      "_oracle_only": True})
         obss = self._run(pool, cases)
         self._judge(res, cases, obss)
         # interrupted: killed right before the end marker (all jobs done), then the next call deletes and extracts again
